@@ -190,6 +190,38 @@ def expected_rhs(c, coeffs, value_of, feed_value_of=None):
     return f, rates
 
 
+def expected_scale(c, coeffs, value_of):
+    """sum of the absolute values of the terms of N^T r (+ feed) at a point: the scale of float cancellation in f_cb"""
+    rates = []
+    for s, k in zip(c['rxns'], coeffs):
+        r = abs(value_of(k) if isinstance(k, str) else k)
+        for j, nu in s['reac']:
+            r = r * abs(value_of(j)) ** nu
+        rates.append(r)
+    f = []
+    for sk in c['subst']:
+        tot = sum(abs(kg.net_of(s, sk)) * r for s, r in zip(c['rxns'], rates))
+        if c['cstr']:
+            tot = tot + abs(value_of('feedratio')) * (abs(value_of('fc_' + sk)) + abs(value_of(sk)))
+        f.append(tot)
+    return f, rates
+
+
+def poly_scale(p, pt):
+    tot = Fraction(0)
+    for mono, coeff in p:
+        t = abs(Fraction(coeff))
+        for v, e in mono:
+            t *= abs(pt.get(v, Fraction(0))) ** e
+        tot += t
+    return tot
+
+
+def fclose(a, b, scale):
+    """float from the lambdified callback vs exact value; `scale` = sum of |terms| (absolute tolerance for cancellation)"""
+    return close(a, b, rtol=1e-9, atol=1e-12 * float(scale) + 1e-300)
+
+
 def participates(c):
     ks = set(k for s in c['rxns'] for k in kg.spec_keys(s))
     return ks
@@ -290,7 +322,8 @@ class C04(Property):
                    'symbols are identified by name (what _create_odesys does; get_odesys rejects a name shared by a substance and a parameter)',
                    'a system that reads variables[\'time\'] is outside the model (reported, never accepted as agreement)',
                    'substance key = substance name (rsys built from a list of keys)',
-                   'f_cb / rate_exprs_cb are lambdified float code: compared at rational points with relative tolerance 1e-9')
+                   'f_cb / rate_exprs_cb are lambdified float code: compared at rational points with relative tolerance 1e-9 '
+                   '(absolute 1e-12 x sum of |terms| where the exact value cancels)')
     anchors = (('chempy/kinetics/ode.py', 'get_odesys'), ('chempy/kinetics/ode.py', '_create_odesys'),
                ('chempy/chemistry.py', 'Reaction.rate_expr'), ('chempy/chemistry.py', 'Reaction.rate'),
                ('chempy/reactionsystem.py', 'ReactionSystem.rates'),
@@ -421,7 +454,8 @@ class C04(Property):
                 return False
             if sorted(a['param_names'][:npk]) != sorted(b['param_names'][:npk]) or a['param_names'][npk:] != b['param_names'][npk:]:
                 return False
-            if len(a['r']) != len(b['r']) or not all(close(x, Fraction(y)) for x, y in zip(a['r'], b['r'])):
+            if len(a['r']) != len(b['r']) or not all(fclose(x, Fraction(y), poly_scale(p, point_of(c)))
+                                                     for x, y, p in zip(a['r'], b['r'], b['rates'])):
                 return False
             if not all(poly_wellformed(p) for p in b['rates']):
                 return False
@@ -431,7 +465,8 @@ class C04(Property):
             return False
         if a['exprs'] != [sort_poly(p) for p in b['exprs']]:
             return False
-        return len(a['f']) == len(b['f']) and all(close(x, Fraction(y)) for x, y in zip(a['f'], b['f']))
+        return len(a['f']) == len(b['f']) and all(fclose(x, Fraction(y), poly_scale(p, point_of(c)))
+                                                  for x, y, p in zip(a['f'], b['f'], b['exprs']))
 
     # ---------------------------------------------------------------------------------------
     def oracle(self, c):
@@ -515,12 +550,13 @@ class C04(Property):
                 return fixed[name]
             return pt.get(name, Fraction(0))
         fwant, rwant = expected_rhs(c, [k if isinstance(k, str) else k for k in want_coeffs], num_of)
+        fsc, rsc = expected_scale(c, want_coeffs, num_of)
         fgot = eval_cb(odesys.f_cb, odesys, pt)
-        if len(fgot) != len(fwant) or not all(close(a, b) for a, b in zip(fgot, fwant)):
+        if len(fgot) != len(fwant) or not all(fclose(a, b, sc) for a, b, sc in zip(fgot, fwant, fsc)):
             return 'f_cb at %s = %s, N^T r = %s' % (c['point'], fgot, [str(x) for x in fwant])
         if c['builder'] == 'get':
             rgot = eval_cb(extra['rate_exprs_cb'], odesys, pt)
-            if len(rgot) != len(rwant) or not all(close(a, b) for a, b in zip(rgot, rwant)):
+            if len(rgot) != len(rwant) or not all(fclose(a, b, sc) for a, b, sc in zip(rgot, rwant, rsc)):
                 return 'rate_exprs_cb at %s = %s, k*prod(c^nu) = %s' % (c['point'], rgot, [str(x) for x in rwant])
         # --- binding the exposed parameters to the stored constants = the inlined build
         if c['builder'] == 'get' and not c['include_params']:
@@ -577,6 +613,18 @@ class C04(Property):
                 for sk, g1, g3 in zip(c['subst'], odesys.exprs, o3.exprs):
                     if sympy.expand(g1 - g3.subs(ren, simultaneous=True)) != 0:
                         return 'builders disagree on d[%s]/dt: %s vs %s' % (sk, g1, g3)
+        return None
+
+    def known_key(self, c, failure):
+        """Finding `get_odesys:substance-named-like-unique-key`: substances, parameters, unique keys and substitutions share the
+        one `variables` dict.  When a unique key equals a substance key and is not exposed as a parameter (include_params=True,
+        or the key is substituted) pyodesys sees no clash, the build is accepted, and either `Expr.arg` finds the *concentration
+        symbol* under the unique key (the rate constant silently becomes a concentration; a value-less key is accepted) or the
+        substitution overwrites the concentration.  Characterising predicate: get_odesys and the unique key of some reaction
+        is a substance key (with include_params=False and no substitution of that key the build is refused, so nothing fails)."""
+        if c.get('op') == 'build' and c['builder'] == 'get':
+            if any(s['param'].get('uk') in c['subst'] for s in c['rxns']):
+                return 'get_odesys:substance-named-like-unique-key'
         return None
 
     def classify(self, c):
